@@ -2,7 +2,7 @@
 """Print a markdown inventory of the property theorems (name + first sentence of the doc comment)."""
 import glob, os, re
 root = os.path.join(os.path.dirname(os.path.dirname(os.path.abspath(__file__))), "lean", "AmqModel", "Props")
-for f in sorted(glob.glob(root + "/C*.lean")) + [root + "/Pass.lean", root + "/Handoff.lean"]:
+for f in sorted(glob.glob(root + "/C*.lean")) + [root + "/Pass.lean", root + "/Handoff.lean", root + "/RoundTrip.lean"]:
     src = open(f).read()
     src = re.sub(r"/-(?!-)(.*?)-/", "", src, flags=re.S)      # plain block comments (kept originals of restated theorems)
     src = re.sub(r"^\s*--.*$", "", src, flags=re.M)
